@@ -42,6 +42,12 @@ struct MockN {            // the default, NON-movable kind of mock object (mock 
   MAKE_MOCK1(f, int(int));
 };
 
+struct VMock {            // a mock type with a virtual destructor, used as deathwatched<VMock> (mock id 4 == object id 4)
+  virtual ~VMock() = default;
+  MAKE_MOCK1(f, int(int));
+};
+using WMock = trompeloeil::deathwatched<VMock>;
+
 struct Obj {
   Obj() = default;
   Obj(Obj const&) = default;
@@ -57,6 +63,8 @@ extern SlotCfg cfg[NSLOT + 1];
 extern std::unique_ptr<Mock> mocks[NMOCK];
 extern std::unique_ptr<MockN> nmock;
 constexpr int NM_ID = 3;
+extern std::unique_ptr<WMock> wmock;
+constexpr int WM_ID = 4;
 extern std::unique_ptr<trompeloeil::sequence> seqs[NSEQ + 1];
 extern std::unique_ptr<trompeloeil::expectation> exps[NSLOT + 1];
 extern std::unique_ptr<DW> objs[NOBJ + 1];
@@ -106,6 +114,7 @@ inline int TI(int slot) { logc(4, slot, 0, 0); return 40 + slot; }
 // generated: one source line per (slot, shape); returns false for an unknown pair
 bool make_expectation(int slot, int shape);
 bool make_monitor(int k, int o, int nq, int q1, int q2);
+bool make_wmonitor(int k, int nq, int q1, int q2);
 bool make_scoped(int slot, int shape, std::function<void()> const& created, std::function<void()> const& body);
 bool make_scoped_monitor(int k, int o, int nq, int q1, int q2, std::function<void()> const& created, std::function<void()> const& body);
 
